@@ -208,8 +208,7 @@ operation lists the theorems above quantify over. -/
 theorem script_covered (st : State) (hist : List Event) (op : Op) :
     ∃ ws : List Op, (∀ o ∈ ws, ∃ id, o = Op.write id) ∧
       (runFrom st hist (op :: ws)).1 = (scriptStep st op).1 :=
-  let ⟨ws, h1, h2⟩ := pump_is_run st hist op
-  ⟨ws, h1, by rw [h2]⟩
+  pump_is_run st hist op
 
 /-! ### the unchanged code: one counter-example per repair (replayed on the implementation by the
 directed scripts of the script lane) -/
